@@ -69,6 +69,46 @@ func c26NodeCfg(x *scn.Exec, id string, c *node.Cfg) {
 	}
 	x.Ctx["c26pol"] = pol
 	c.Policy = pol
+	// the daemon's peer-sync runs next to the swap service for the whole life of the process, on the same policy object
+	c26StopPeersync(x)
+	dbPath := filepath.Join(workDir, fmt.Sprintf("c26-ps-%d-%d.db", os.Getpid(), c26Seq.Add(1)))
+	if store, err := peersync.NewStore(dbPath); err == nil {
+		ln := &c26Ln{ch: make(chan peersync.CustomMessage)}
+		self, _ := peersync.NewPeerID(scn.IDA)
+		ps := peersync.NewPeerSync(self, store, ln, pol, []string{"btc", "lbtc"}, x.Cfg.Premium)
+		ctx, cancel := context.WithCancel(context.Background())
+		go ps.Start(ctx)
+		x.Ctx["c26ps"] = &c26Ps{store: store, ln: ln, cancel: cancel, path: dbPath}
+	}
+}
+
+type c26Ps struct {
+	store  *peersync.Store
+	ln     *c26Ln
+	cancel context.CancelFunc
+	path   string
+}
+
+func c26StopPeersync(x *scn.Exec) {
+	if p, ok := x.Ctx["c26ps"].(*c26Ps); ok && p != nil {
+		p.cancel()
+		synctest.Wait()
+		p.store.Close()
+		os.Remove(p.path)
+		x.Ctx["c26ps"] = (*c26Ps)(nil)
+	}
+}
+
+var c26GoodPayload, _ = json.Marshal(map[string]any{"version": 7, "assets": []string{"btc", "lbtc"}, "peer_allowed": true, "btc_swap_out_premium_rate_ppm": 1234})
+
+// c26Send hands one peer-sync message of the peer to the running instance.
+func c26Send(p *c26Ps, mt messages.MessageType, payload []byte) {
+	bID, _ := peersync.NewPeerID(scn.IDB)
+	select {
+	case p.ln.ch <- peersync.CustomMessage{From: bID, Type: mt, Payload: payload}:
+	case <-time.After(time.Second):
+	}
+	synctest.Wait()
 }
 
 // operator actions on the running policy (the reloadpolicy / allow-list RPCs) before the refund
@@ -87,6 +127,10 @@ func c26Enabled(x *scn.Exec) []mc.Event {
 					out = append(out, mc.Event{Name: "c26op", Arg: op, Dev: 1, NoCrash: true})
 				}
 			}
+			if x.Ctx["c26contact"] == nil {
+				// the peer talks to our peer-sync before it misbehaves
+				out = append(out, mc.Event{Name: "c26contact", Dev: 1, NoCrash: true})
+			}
 			return out
 		}
 		return nil
@@ -97,10 +141,31 @@ func c26Enabled(x *scn.Exec) []mc.Event {
 	if done, _ := x.Ctx["c26probed"].(int); done >= 2 {
 		return nil
 	}
-	return []mc.Event{{Name: "c26probe", NoCrash: true}}
+	out := []mc.Event{{Name: "c26probe", NoCrash: true}}
+	if x.Ctx["c26unallow"] == nil {
+		// the operator takes the (formerly trusted) peer off the allow-list after the refund: the quarantine must stay
+		out = append(out, mc.Event{Name: "c26unallow", Dev: 1, NoCrash: true})
+	}
+	return out
 }
 
 func c26Apply(x *scn.Exec, e mc.Event) bool {
+	if e.Name == "c26contact" {
+		x.Ctx["c26contact"] = true
+		if p, ok := x.Ctx["c26ps"].(*c26Ps); ok && p != nil {
+			c26Send(p, messages.MESSAGETYPE_POLL, c26GoodPayload)
+			c26Send(p, messages.MESSAGETYPE_REQUEST_POLL, c26GoodPayload)
+		}
+		return true
+	}
+	if e.Name == "c26unallow" {
+		x.Ctx["c26unallow"] = true
+		if pol, _ := x.Ctx["c26pol"].(*policy.Policy); pol != nil {
+			_ = pol.AddToAllowlist(scn.IDB)
+			_ = pol.RemoveFromAllowlist(scn.IDB)
+		}
+		return true
+	}
 	if e.Name == "c26op" {
 		pol, _ := x.Ctx["c26pol"].(*policy.Policy)
 		done, _ := x.Ctx["c26ops"].(string)
@@ -195,51 +260,43 @@ func c26Apply(x *scn.Exec, e mc.Event) bool {
 			add("local_initiation_to_quarantined_peer_started:swap_"+ty, "no error")
 		}
 	}
-	// 4. peer-sync neither answers the peer nor stores its capabilities
-	pol, _ := x.Ctx["c26pol"].(*policy.Policy)
-	dbPath := filepath.Join(workDir, fmt.Sprintf("c26-peers-%d-%d.db", os.Getpid(), c26Seq.Add(1)))
-	store, err := peersync.NewStore(dbPath)
-	if err != nil {
-		x.Panics = append(x.Panics, "c26: peersync store: "+err.Error())
-	} else {
-		ln := &c26Ln{ch: make(chan peersync.CustomMessage)}
-		self, _ := peersync.NewPeerID(scn.IDA)
+	// 4. peer-sync (the instance that has been running all along in this process) neither answers the peer nor
+	// stores what it sends from now on
+	if p, ok := x.Ctx["c26ps"].(*c26Ps); ok && p != nil {
 		bID, _ := peersync.NewPeerID(scn.IDB)
-		ps := peersync.NewPeerSync(self, store, ln, pol, []string{"btc", "lbtc"}, x.Cfg.Premium)
-		ctx, cancel := context.WithCancel(context.Background())
-		go ps.Start(ctx)
-		synctest.Wait()
-		ln.mu.Lock()
-		ln.sent = nil // initial sync may poll connected peers; only answers to the peer's own messages are judged
-		ln.mu.Unlock()
-		payload, _ := json.Marshal(map[string]any{"version": 7, "assets": []string{"btc", "lbtc"}, "peer_allowed": true, "btc_swap_out_premium_rate_ppm": 1234})
+		capOf := func() string {
+			if st, err := p.store.GetPeerState(bID); err == nil && st != nil && st.Capability() != nil {
+				b, _ := json.Marshal(peersync.SnapshotFromCapability(st.Capability())) // by value: the struct holds pointers
+				return string(b)
+			}
+			return ""
+		}
+		before := capOf()
+		p.ln.mu.Lock()
+		p.ln.sent = nil // only answers to the peer's messages from here on are judged
+		p.ln.mu.Unlock()
+		newer, _ := json.Marshal(map[string]any{"version": 7, "assets": []string{"btc"}, "peer_allowed": true, "btc_swap_out_premium_rate_ppm": 4321})
 		unknownAsset, _ := json.Marshal(map[string]any{"version": 7, "assets": []string{"doge"}, "peer_allowed": true})
 		futureVersion, _ := json.Marshal(map[string]any{"version": 99, "assets": []string{"btc"}, "peer_allowed": true})
 		// well-formed and unparseable capability payloads: a quarantined peer gets no answer to any of them
-		for _, pl := range [][]byte{payload, unknownAsset, futureVersion, []byte("not json"), []byte("null"), {}} {
+		for _, pl := range [][]byte{newer, unknownAsset, futureVersion, []byte("not json"), []byte("null"), {}} {
 			for _, mt := range []messages.MessageType{messages.MESSAGETYPE_POLL, messages.MESSAGETYPE_REQUEST_POLL} {
-				select {
-				case ln.ch <- peersync.CustomMessage{From: bID, Type: mt, Payload: pl}:
-				case <-time.After(time.Second):
-				}
-				synctest.Wait()
+				c26Send(p, mt, pl)
 			}
 		}
-		ln.mu.Lock()
-		sent := append([]string{}, ln.sent...)
-		ln.mu.Unlock()
+		p.ln.mu.Lock()
+		sent := append([]string{}, p.ln.sent...)
+		p.ln.mu.Unlock()
 		for _, s := range sent {
-			if strings.HasPrefix(s, scn.IDB) {
+			if strings.HasPrefix(s, scn.IDB) && strings.HasSuffix(s, fmt.Sprintf(":%d", messages.MESSAGETYPE_POLL)) {
+				// (the poll ticker may still ASK a connected peer without record; what must not happen is an ANSWER with our capabilities)
 				add("peersync_answered_quarantined_peer", "sent "+s)
+				break
 			}
 		}
-		if p, err := store.GetPeerState(bID); err == nil && p != nil && p.Capability() != nil {
-			add("peersync_stored_capability_of_quarantined_peer", "capability stored")
+		if after := capOf(); after != before {
+			add("peersync_stored_capability_of_quarantined_peer", fmt.Sprintf("capability stored or replaced after the quarantine: before %s, after %s", before, after))
 		}
-		cancel()
-		synctest.Wait()
-		store.Close()
-		os.Remove(dbPath)
 	}
 	prev, _ := x.Ctx["c26v"].([]mc.Violation)
 	x.Ctx["c26v"] = append(prev, vs...)
@@ -248,6 +305,7 @@ func c26Apply(x *scn.Exec, e mc.Event) bool {
 
 func oracleC26(x *scn.Exec) []mc.Violation {
 	v, _ := x.Ctx["c26v"].([]mc.Violation)
+	c26StopPeersync(x)
 	// clean up the per-execution policy file
 	if p, ok := x.Ctx["c26file"].(string); ok {
 		os.Remove(p)
@@ -271,7 +329,7 @@ func init() {
 						n, _ := x.Ctx["c26probed"].(int)
 						raw, _ := os.ReadFile(c26PolicyPath(x))
 						ops, _ := x.Ctx["c26ops"].(string)
-						return fmt.Sprintf("|probed=%d ops=%s file=%q", n, ops, string(raw))
+						return fmt.Sprintf("|probed=%d ops=%s contact=%v unallow=%v file=%q", n, ops, x.Ctx["c26contact"] != nil, x.Ctx["c26unallow"] != nil, string(raw))
 					}
 				}})
 		},
